@@ -499,6 +499,37 @@ func (w *world) do(op map[string]J) (res map[string]J) {
 			}
 			res["rules"] = kbInfo(lib.GetKnowledgeBase(kbName, kbVer))
 		}
+	case "ptrcheck":
+		// every pair among the blueprint and the named instances must share no object
+		lib := w.lib(get("lib"))
+		kbs := []*ast.KnowledgeBase{lib.GetKnowledgeBase(kbName, kbVer)}
+		names := []string{"blueprint"}
+		for _, n := range jarr(op["insts"]) {
+			if kb, ok := w.insts[jstr(n)]; ok && kb != nil {
+				kbs = append(kbs, kb)
+				names = append(names, jstr(n))
+			}
+		}
+		shared := []J{}
+		for i := 0; i < len(kbs); i++ {
+			for j := i + 1; j < len(kbs); j++ {
+				for _, s := range sharedPointers(kbs[i], kbs[j]) {
+					shared = append(shared, []J{names[i], names[j], s})
+				}
+			}
+		}
+		res["shared"] = shared
+		res["compared"] = len(kbs)
+	case "concurrent":
+		for k, v := range w.concurrent(op, kbName, kbVer) {
+			res[k] = v
+		}
+	case "info":
+		if inst := get("inst"); inst != "" {
+			res["rules"] = kbInfo(w.insts[inst])
+		} else {
+			res["rules"] = kbInfo(w.lib(get("lib")).GetKnowledgeBase(kbName, kbVer))
+		}
 	case "store":
 		lib := w.lib(get("lib"))
 		var buf bytes.Buffer
